@@ -19,6 +19,8 @@ SMILES = [
     "c1ccc2ccccc2c1", "C1=CC=CC=CC=C1", "O=C=O", "C#N", "CC#N", "C=O", "CC(=O)O", "CC(C)=O", "NC(N)=O", "NCC(=O)O", "C=CC=O", "C=C=O", "C=CN=C=O", "CN=C=O",
     "C=C=Cc1ccccc1", "Oc1ccccc1", "Nc1ccccc1", "CSC", "CS(C)(=O)=O", "OS(O)(=O)=O", "P", "CP(C)C", "COP(=O)(OC)OC", "FP(F)(F)(F)F", "CCl", "BrCBr", "FC(F)(F)I",
     "CO", "COC", "CN", "C1CC1", "C1CCCCC1", "C1=CCCCC1", "N#CC#N", "OC=O", "C=CC#N", "c1ccc(cc1)-c1ccccc1", "O=C1C=CC(=O)C=C1", "C=CC=CC=C", "S=C=S", "N=C=N", "ClC(Cl)=C(Cl)Cl",
+    # several unsaturated / hypervalent groups at once: the unsaturated atoms cannot be matched perfectly in one go
+    "O=S(=O)=O", "C=S(=O)=O", "O=C=NCN=C=O", "O=C=NS(=O)(=O)Cl", "CS(=O)(=O)CS(C)(=O)=O", "OS(=O)(=O)CS(O)(=O)=O", "C=C=CCC=C=C", "O=C=C=C=O", "O=P(O)(O)OP(=O)(O)O",
 ]
 
 
@@ -78,6 +80,30 @@ def c18_body(smiles, perm, chemical=True):
     return f"from vf.e3.bondorders import c18_case, mol_input\ntypes, ac = mol_input({smiles!r})\nok, why = c18_case(types, ac, {list(perm)!r}, {chemical!r})\nprint(why)\n"
 
 
+def export_orders_case(cname, k, centre, parity):
+    """a centre with k fluorine ligands (and the descriptor, if any) exported with generate_bond_orders=True"""
+    from ..spec.refmodel import build_real
+    from .rdkitio import star
+    from .harness import safe
+
+    ids = list(range(1, k + 2))
+    r = star(cname or "Tetrahedral", ids, [centre] + [9] * k, list(range(k)), parity)
+    if cname is None:
+        r.atom_stereo = {}
+    g = build_real(r)
+    res, err = safe(lambda: g._to_rdmol(generate_bond_orders=True))
+    if err:
+        return False, f"_to_rdmol(generate_bond_orders=True) raised {err}"
+    mol, idx_to_atom = res
+    idx = {a: i for i, a in idx_to_atom.items()}
+    for b in r.bonds:
+        x, y = sorted(b)
+        rb = mol.GetBondBetweenAtoms(idx[x], idx[y])
+        if rb is None or rb.GetBondTypeAsDouble() < 1:
+            return False, f"bond {x}-{y} of the graph has order {None if rb is None else rb.GetBondTypeAsDouble()} in the exported molecule"
+    return True, ""
+
+
 def run_c18(rep, tier, seed):
     rng = random.Random(seed + 18)
     distinct = 0
@@ -110,6 +136,24 @@ def run_c18(rep, tier, seed):
         for p in perms:
             ok, why = c18_case(types, ac, p)
             G["corpus/structure-and-standard-valences-under-atom-permutations"].case(ok, f"{smi} order {p}: {why}", c18_body(smi, p), sample=smi)
+    # a molecule of the property's domain (cumulated system) on which the perception fails for every atom order: kept in a
+    # group of its own, so that the known finding (known_findings.json) does not hide anything else
+    gk = Group(rep, "C18/bounded/corpus/conjugated-bis-allene(C=C=CC=C=C)")
+    types, ac = mol_input("C=C=CC=C=C")
+    for t in range(4):
+        p = list(range(len(types)))
+        if t:
+            rng.shuffle(p)
+        ok, why = c18_case(types, ac, tuple(p))
+        gk.case(ok, f"C=C=CC=C=C order {tuple(p)}: {why}", c18_body("C=C=CC=C=C", tuple(p)), sample="C=C=CC=C=C")
+    gk.close()
+    # through the exporter: every bond of the graph carries an order >= 1 in the RDKit molecule, whatever descriptor sits on its atoms
+    ge = Group(rep, "C18/bounded/export/graph-bonds-carry-an-order>=1")
+    for cname, k, centre, par in (("Tetrahedral", 4, 6, 1), ("SquarePlanar", 4, 78, 0), ("TrigonalBipyramidal", 5, 15, 1), ("Octahedral", 6, 16, 1), ("Octahedral", 6, 16, -1), (None, 6, 16, None)):
+        body = (f"from vf.e3.bondorders import export_orders_case\nok, why = export_orders_case({cname!r}, {k}, {centre}, {par!r})\nprint(why)\n")
+        ok, why = export_orders_case(cname, k, centre, par)
+        ge.case(ok, f"{cname} centre Z={centre} with {k} ligands: {why}", body, sample=str(cname))
+    ge.close()
     # random symmetric 0/1 matrices over the tabulated elements: the structural clause only
     tab = [1, 5, 6, 7, 8, 9, 14, 15, 16, 17, 35, 53]
     for _ in range(150 if tier == "quick" else 2000):
